@@ -238,7 +238,15 @@ class IASolverBaseClass:  # pylint: disable=R0902
             arrays).
         """
         if self._full_F is None:
-            self._full_F = self._F * np.sqrt(self.P)
+            # Scale the precoder of each user explicitly: the product of an
+            # array of objects by an array of floats is evaluated with
+            # python floats, which keeps single precision precoders in
+            # single precision (while `sqrt(P)` is a double).
+            sqrt_P = np.sqrt(self.P)
+            full_F = np.empty(self.K, dtype=np.ndarray)
+            for k in range(self.K):
+                full_F[k] = self._F[k] * sqrt_P[k]
+            self._full_F = full_F
         return self._full_F
 
     # noinspection PyUnresolvedReferences
